@@ -223,6 +223,27 @@ def run_case(ctx, case):
     ctx.check("accumulate.sum-upstream", bad is None, "accumulate|value", case,
               lambda: {"cell,got,expected": bad, "accumulation": a.tolist(),
                        "terminal": [c for c in range(model.n) if model.down[c] < 0]})
+    if field is None and case.get("fd_dtype", "i8") in ("i8", "i4") and \
+            case.get("fd_nodata") is None and ctx.evaluations % 4 == 0:
+        # the caller gives the flow grid another no-data marker and accumulates again:
+        # cells that drain nowhere carry the marker the grid has *now*
+        try:
+            newnd = [-7, 99, -9999][int(a.size) % 3]
+            oldnd = fd.nodata
+            fd.nodata = newnd
+            acc2 = np.asarray(g.accumulate(fd, nprint=10 ** 6).data, dtype=float).ravel()
+            term = np.array([model.down[c] < 0 for c in range(model.n)])
+            ctx.tag("default-field:marker-changed-between-calls")
+            ctx.api("accumulate")
+            ctx.check("accumulate.marker-follows-grid",
+                      bool(np.all(acc2[term] == newnd)) and
+                      bool(np.array_equal(acc2[~term], a[~term])),
+                      "accumulate|stale-no-data-marker-after-the-grid's-marker-changed",
+                      case, lambda: {"terminal_cells_now": acc2[term][:6].tolist(),
+                                     "marker_now": newnd})
+            fd.nodata = oldnd
+        except Exception as e:
+            ctx.extra["marker-change-refused"] += 1
     if nontriv:
         ctx.nontrivial(codes, f, nodata)
         if ctx.evaluations % 16 == 0:
@@ -230,6 +251,36 @@ def run_case(ctx, case):
                       lambda: np.asarray(g.accumulate(fd, ta, nprint=10 ** 6,
                                                       max_accumulated_cells=maxacc).data),
                       [], np.array(acc.data, copy=True), case)
+
+
+def run_terminal_case(ctx):
+    """the same accumulation with standard output on a pipe (as in any test run) and on a
+    terminal (an interactive session), progress lines on: same numbers"""
+    from hyverif.core import stdout_is_a_terminal
+    g = mods()
+    rng = np.random.default_rng(ctx.seed + 3)
+    for (nr, nc, nprint) in ((40, 45, 1), (30, 40, 1), (12, 12, 1), (400, 300, 100)):
+        codes = gen_forest(rng, nr, nc, 0)
+        fd = g.Grid("fd", nc, nr, dtype=np.int64)
+        fd.data = codes
+        ta = g.Grid("ta", nc, nr, dtype=np.float64, nodata=-9999.0)
+        ta.data = rng.integers(0, 9, size=(nr, nc)) / 2.0
+        base = np.asarray(g.accumulate(fd, ta, nprint=nprint).data, dtype=float)
+        with stdout_is_a_terminal():
+            try:
+                tty = np.asarray(g.accumulate(fd, ta, nprint=nprint).data, dtype=float)
+                err = None
+            except Exception as e:
+                tty, err = None, repr(e)[:200]
+        ctx.evaluated()
+        ctx.tag("stdout-is-a-terminal")
+        ctx.api("accumulate", 2)
+        ndiff = None if tty is None else int(np.sum(~((tty == base) |
+                                                      (np.isnan(tty) & np.isnan(base)))))
+        ctx.check("accumulate.terminal", err is None and ndiff == 0,
+                  "accumulate|result-depends-on-stdout-being-a-terminal",
+                  {"kind": "terminal", "shape": [nr, nc], "nprint": nprint},
+                  lambda: {"cells_that_differ": ndiff, "exception": err})
 
 
 def run_huge_grid(ctx):
@@ -350,6 +401,8 @@ def run(ctx):
                        "fieldname": "narrow-" + tdt, "ta_dtype": tdt})
     if ctx.tier == "thorough" and ctx.shard == 0:
         run_huge_grid(ctx)
+    if ctx.shard == 1 % ctx.nshards:
+        run_terminal_case(ctx)
     nrand = 10 if ctx.tier == "quick" else 800
     for it in range(nrand):
         if ctx.out_of_time():
@@ -373,4 +426,6 @@ def run(ctx):
 def replay(ctx, case):
     if case.get("kind") == "hugegrid":
         return run_huge_grid(ctx)
+    if case.get("kind") == "terminal":
+        return run_terminal_case(ctx)
     run_case(ctx, case)
